@@ -1,3 +1,177 @@
 import JoblibModel.ParallelDriver
-/-! Driver for C09: scenarios of harness/ctl.py → event log of the M1 model (see JoblibModel/ParallelDriver.lean). -/
-def main : IO Unit := JoblibModel.IOUtil.lineLoop JoblibModel.ParallelDriver.handle
+import JoblibModel.EvalExpr
+/-! Driver for C09.
+
+* scenarios of harness/ctl.py → event log of the M1 model (see JoblibModel/ParallelDriver.lean): a line of integers, or `AB …`;
+* the `eval_expr` / `pre_dispatch` model (JoblibModel/EvalExpr.lean):
+  * `evalexpr <AST>`            → `ok <value>` | `raise <Class>` | `untracked`
+  * `amount <AST>`              → `all` | `amount <n>` | `raise <Class>` | `untracked`   (eval_expr, `int()`, `islice`)
+  * `parse <text>`              → `ok <AST>` | `syntax-error` | `abstain`
+  * `subst <text> <n_jobs>`     → `<text>`                                               (`.replace("n_jobs", str(n_jobs))`)
+  * `predispatch <pd> <n_jobs>` → as `amount`; `<pd>` = `T <text>` | `I <int>` | `F <float>` | `B 0|1` | `Y` (bytes) | `O` (other)
+
+  `<text>` = code points in decimal joined by `.`, `e` for the empty text.
+  `<AST>` (prefix): `I n` | `F m e` | `F inf` | `F -inf` | `F nan` | `B 0|1` | `S <text>` | `Y <text>` | `N` | `E` | `C`
+  | `b <Op> <AST> <AST>` | `u <Op> <AST>` | `O <Kind>` with the `ast` class names.
+Malformed requests → `bad-op`. -/
+namespace Driver.C09
+open JoblibModel.EvalExpr JoblibModel.IOUtil
+
+def binOps : List (String × BinOp) :=
+  [("Add", .add), ("Sub", .sub), ("Mult", .mult), ("Div", .div), ("FloorDiv", .floorDiv), ("Mod", .mod), ("Pow", .pow),
+   ("MatMult", .matMult), ("LShift", .lShift), ("RShift", .rShift), ("BitOr", .bitOr), ("BitXor", .bitXor),
+   ("BitAnd", .bitAnd)]
+
+def unOps : List (String × UnOp) := [("USub", .usub), ("UAdd", .uadd), ("Not", .not), ("Invert", .invert)]
+
+def kinds : List (String × NodeKind) :=
+  [("Name", .name), ("Call", .call), ("Attribute", .attribute), ("Subscript", .subscript), ("Compare", .compare),
+   ("BoolOp", .boolOp), ("IfExp", .ifExp), ("Lambda", .lambda), ("Tuple", .tuple), ("List", .list), ("Set", .set),
+   ("Dict", .dict), ("ListComp", .listComp), ("SetComp", .setComp), ("DictComp", .dictComp),
+   ("GeneratorExp", .generatorExp), ("Await", .await), ("Yield", .yield), ("YieldFrom", .yieldFrom),
+   ("JoinedStr", .joinedStr), ("FormattedValue", .formattedValue), ("NamedExpr", .namedExpr), ("Starred", .starred),
+   ("Slice", .slice)]
+
+def nameOf {α : Type} [BEq α] (tbl : List (String × α)) (x : α) : String :=
+  match tbl.find? (fun p => p.2 == x) with
+  | some p => p.1
+  | none => "?"
+
+instance : BEq BinOp := ⟨fun a b => decide (a = b)⟩
+instance : BEq UnOp := ⟨fun a b => decide (a = b)⟩
+instance : BEq NodeKind := ⟨fun a b => decide (a = b)⟩
+
+def seq? (s : String) : Option (List Nat) :=
+  if s = "e" then some [] else (s.splitOn ".").mapM (·.toNat?)
+
+def text? (s : String) : Option Text := do
+  let l ← seq? s
+  if l.any (fun c => !(Nat.isValidChar c)) then none
+  pure (l.map Char.ofNat)
+
+def showSeq (l : List Nat) : String := if l.isEmpty then "e" else ".".intercalate (l.map toString)
+def showText (t : Text) : String := showSeq (t.map Char.toNat)
+
+def flt? : List String → Option (Flt × List String)
+  | "inf" :: r => some (.inf, r)
+  | "-inf" :: r => some (.ninf, r)
+  | "nan" :: r => some (.nan, r)
+  | m :: e :: r => do
+    let m ← m.toInt?
+    let e ← e.toInt?
+    -- canonical form only: `m` odd, or `0 0`
+    if (m = 0 ∧ e ≠ 0) ∨ (m ≠ 0 ∧ m % 2 = 0) then none
+    if m = 0 then pure (.fin 0 0, r) else pure (.fin m e, r)
+  | _ => none
+
+def ast? : Nat → List String → Option (Ast × List String)
+  | 0, _ => none
+  | f + 1, toks =>
+    match toks with
+    | "I" :: n :: r => (n.toInt?).map (fun n => (.const (.int n), r))
+    | "F" :: r => (flt? r).map (fun (x, r) => (.const (.flt x), r))
+    | "B" :: "0" :: r => some (.const (.bool false), r)
+    | "B" :: "1" :: r => some (.const (.bool true), r)
+    | "S" :: s :: r => (seq? s).map (fun l => (.const (.str l), r))
+    | "Y" :: s :: r => (seq? s).map (fun l => (.const (.bytes l), r))
+    | "N" :: r => some (.const .none, r)
+    | "E" :: r => some (.const .ellipsis, r)
+    | "C" :: r => some (.const .cplx, r)
+    | "b" :: op :: r => do
+      let op ← binOps.lookup op
+      let (l, r) ← ast? f r
+      let (rr, r) ← ast? f r
+      pure (.binOp op l rr, r)
+    | "u" :: op :: r => do
+      let op ← unOps.lookup op
+      let (e, r) ← ast? f r
+      pure (.unaryOp op e, r)
+    | "O" :: k :: r => (kinds.lookup k).map (fun k => (.other k, r))
+    | _ => none
+
+def showFlt : Flt → String
+  | .fin m e => s!"{m} {e}"
+  | .inf => "inf"
+  | .ninf => "-inf"
+  | .nan => "nan"
+
+def showConst : Const → String
+  | .int n => s!"I {n}"
+  | .flt x => "F " ++ showFlt x
+  | .bool b => if b then "B 1" else "B 0"
+  | .str s => "S " ++ showSeq s
+  | .bytes s => "Y " ++ showSeq s
+  | .none => "N"
+  | .ellipsis => "E"
+  | .cplx => "C"
+
+def showAst : Ast → String
+  | .const c => showConst c
+  | .binOp op l r => s!"b {nameOf binOps op} {showAst l} {showAst r}"
+  | .unaryOp op e => s!"u {nameOf unOps op} {showAst e}"
+  | .other k => s!"O {nameOf kinds k}"
+
+def showExc : Exc → String
+  | .ValueError => "ValueError" | .TypeError => "TypeError" | .KeyError => "KeyError" | .SyntaxError => "SyntaxError"
+  | .ZeroDivisionError => "ZeroDivisionError" | .OverflowError => "OverflowError"
+
+def showRes : Res Val → String
+  | .ok v => "ok " ++ showConst v
+  | .raise e => "raise " ++ showExc e
+  | .untracked => "untracked"
+
+def showResolved : Resolved → String
+  | .all => "all"
+  | .amount n => s!"amount {n}"
+  | .raise e => "raise " ++ showExc e
+  | .untracked => "untracked"
+
+def wholeAst? (toks : List String) : Option Ast :=
+  match ast? (toks.length + 1) toks with
+  | some (e, []) => some e
+  | _ => none
+
+def pd? : List String → Option (PreDispatch × List String)
+  | "T" :: s :: r => (text? s).map (fun t => (.str t, r))
+  | "I" :: n :: r => (n.toInt?).map (fun n => (.int n, r))
+  | "F" :: r => (flt? r).map (fun (x, r) => (.flt x, r))
+  | "B" :: "0" :: r => some (.bool false, r)
+  | "B" :: "1" :: r => some (.bool true, r)
+  | "Y" :: r => some (.bytes, r)
+  | "O" :: r => some (.other, r)
+  | _ => none
+
+def handle (line : String) : String :=
+  match tokens line with
+  | "evalexpr" :: r =>
+    match wholeAst? r with
+    | some e => showRes (evalExpr e)
+    | none => "bad-op"
+  | "amount" :: r =>
+    match wholeAst? r with
+    | some e => showResolved (resolveAst e)
+    | none => "bad-op"
+  | ["parse", s] =>
+    match text? s with
+    | some t =>
+      match parse t with
+      | .ok e => "ok " ++ showAst e
+      | .syntaxError => "syntax-error"
+      | .abstain => "abstain"
+    | none => "bad-op"
+  | ["subst", s, n] =>
+    match text? s, n.toInt? with
+    | some t, some n => showText (substitute t n)
+    | _, _ => "bad-op"
+  | "predispatch" :: r =>
+    match pd? r with
+    | some (pd, [n]) =>
+      match n.toInt? with
+      | some n => showResolved (resolvePreDispatch pd n)
+      | none => "bad-op"
+    | _ => "bad-op"
+  | _ => JoblibModel.ParallelDriver.handle line
+
+end Driver.C09
+
+def main : IO Unit := JoblibModel.IOUtil.lineLoop Driver.C09.handle
